@@ -101,31 +101,44 @@ Definition c06_case (k : list nat * option nat * list nat) : bool :=
 Definition c06_choice (k : list nat * option nat * nat) : bool :=
   let '(hand, led, ch) := k in mem ch (avail_spec hand led).
 
-(* ---- C11 in process: observers fed the accepted plays ----
-   case = (bid, declarer, deal, accepted ops, per observer seat: list of (accepted?, projection after), final (own hand, dummy hand if set)) *)
-Definition c11case := (nat * nat * list (list nat) * list (nat * nat) * list (list (bool * proj) * (list nat * option (list nat) * list (nat * list nat))))%type.
-Fixpoint c11_walk (tr : strain) (r : ref) (ops : list (nat * nat)) (obs : list (bool * proj)) (i : nat) : nat * ref :=
-  match ops, obs with
-  | [], [] => (0, r)
-  | (c, _) :: os, (ok, pj) :: bs => let r' := ref_play tr r (cn c) in
-      if ok && proj_eqb pj (ref_proj r') then c11_walk tr r' os bs (S i) else (S i, r)
-  | _, _ => (S i, r) end.
+(* ---- C11 / C05 in process: single-seat observers (own hand + dummy's hand once set) ----
+   each observer is fed every accepted play and those refused attempts it is in a position to refuse itself
+   (out of turn, or from a seat whose hand it knows).
+   case = (bid, declarer, deal, per observer seat: attempts, (accepted?, unchanged?, projection after) per attempt,
+           final (own hand, dummy hand if set, history)) *)
+Definition c11obs := (list (nat * nat) * list (bool * bool * proj) * (list nat * option (list nat) * list (nat * list nat)))%type.
+Definition c11case := (nat * nat * list (list nat) * list c11obs)%type.
 Definition played_by (p : nat) (ops : list (nat * nat)) : list nat := map fst (filter (fun o => snd o =? p) ops).
 Definition minus (a b : list nat) : list nat := filter (fun x => negb (mem x b)) a.
-Definition c11_observer (tr : strain) (decl : seat) (deal : list (list nat)) (ops : list (nat * nat)) (me : nat)
-           (o : list (bool * proj) * (list nat * option (list nat) * list (nat * list nat))) : nat :=
-  let '(steps, (fh, fd, fhist)) := o in
-  let '(r, f) := c11_walk tr (ref_init decl) ops steps 0 in
+Fixpoint c11_walk (tr : strain) (me dm : nat) (deal : list (list nat)) (r : ref) (mine : list nat) (dh : option (list nat)) (started : bool)
+         (ops : list (nat * nat)) (obs : list (bool * bool * proj)) (i : nat) : nat * (ref * list nat * option (list nat)) :=
+  match ops, obs with
+  | [], [] => (0, (r, mine, dh))
+  | (c, p) :: os, (ok, unch, pj) :: bs =>
+      let should := (p =? seat_idx (ref_turn r)) &&
+                    (if p =? me then mem c mine
+                     else if p =? dm then match dh with Some h => mem c h | None => false end
+                     else true) in
+      if negb (Bool.eqb ok should) then (S i, (r, mine, dh))
+      else if ok then
+        let r' := ref_play tr r (cn c) in
+        let mine' := if p =? me then rem c mine else mine in
+        let dh1 := if p =? me then dh else if p =? dm then option_map (rem c) dh else dh in
+        (* dummy's hand is laid down right after the first accepted card, for every observer but dummy *)
+        let dh' := if negb started && negb (me =? dm) then Some (if p =? dm then rem c (nth dm deal []) else nth dm deal []) else dh1 in
+        if proj_eqb pj (ref_proj r') && negb unch then c11_walk tr me dm deal r' mine' dh' true os bs (S i) else (S i, (r, mine, dh))
+      else if unch && proj_eqb pj (ref_proj r) then c11_walk tr me dm deal r mine dh started os bs (S i) else (S i, (r, mine, dh))
+  | _, _ => (S i, (r, mine, dh)) end.
+Definition c11_observer (tr : strain) (decl : seat) (deal : list (list nat)) (me : nat) (o : c11obs) : nat :=
+  let '(ops, steps, (fh, fd, fhist)) := o in
+  let dm := seat_idx (partner decl) in
+  let '(r, (f, mine, dh)) := c11_walk tr me dm deal (ref_init decl) (nth me deal []) None false ops steps 0 in
   if r =? 0 then
-    let dm := seat_idx (partner decl) in
-    if list_eqb Nat.eqb fh (sort_nat (minus (nth me deal []) (played_by me ops))) && hist_eqb fhist (r_hist f) &&
-       match fd with
-       | None => (me =? dm) || match ops with [] => true | _ => false end
-       | Some dh => negb (me =? dm) && list_eqb Nat.eqb dh (sort_nat (minus (nth dm deal []) (played_by dm ops))) end
+    if list_eqb Nat.eqb fh (sort_nat mine) && hist_eqb fhist (r_hist f) && opt_eqb (list_eqb Nat.eqb) fd (option_map sort_nat dh)
     then 0 else 1000
   else r.
 Definition c11_case (k : c11case) : nat :=
-  let '(b, d, deal, ops, obss) := k in
+  let '(b, d, deal, obss) := k in
   let tr := strain_of_bid b in
-  fold_right (fun '(me, o) acc => let r := c11_observer tr (sn d) deal ops me o in if r =? 0 then acc else 2000 * (S me) + r)
+  fold_right (fun '(me, o) acc => let r := c11_observer tr (sn d) deal me o in if r =? 0 then acc else 2000 * (S me) + r)
              0 (combine (seq 0 4) obss).
